@@ -934,7 +934,12 @@ func (f *frame) stmtSite(in ssa.Instruction) {
 		// a site names a statement by its text as it was when the contract was written; locals renamed
 		// since then (see `locals`) are renamed in that text as well
 		alias := map[string]string{} // text as it is in the code now -> site as written in the contract
+		wantEnd := map[string]bool{}
 		add := func(site string) {
+			if strings.HasPrefix(site, "end loop ") {
+				wantEnd[site] = true
+				return
+			}
 			if strings.HasPrefix(site, "stmt ") || strings.HasPrefix(site, "after stmt ") {
 				cur := site
 				for from, to := range t.renames {
@@ -1009,6 +1014,75 @@ func (f *frame) stmtSite(in ssa.Instruction) {
 			}
 			return true
 		})
+		// `end loop N`: the natural end of the body of the N-th loop (source order): on every edge to the
+		// loop head (or to the post statement) that leaves the last statement of the body -- not the
+		// `continue` edges of earlier statements. The clauses run in a block of their own on that edge.
+		for site := range wantEnd {
+			var n int
+			fmt.Sscanf(site, "end loop %d", &n)
+			heads := loopHeadsInSourceOrder(f.fn)
+			var loops []ast.Stmt
+			ast.Inspect(syn, func(nd ast.Node) bool {
+				if _, ok := nd.(*ast.FuncLit); ok && nd != syn {
+					return false
+				}
+				switch nd.(type) {
+				case *ast.ForStmt, *ast.RangeStmt:
+					loops = append(loops, nd.(ast.Stmt))
+				}
+				return true
+			})
+			if n < 1 || n > len(heads) || len(loops) != len(heads) {
+				continue
+			}
+			var body *ast.BlockStmt
+			switch l := loops[n-1].(type) {
+			case *ast.ForStmt:
+				body = l.Body
+			case *ast.RangeStmt:
+				body = l.Body
+			}
+			if body == nil || len(body.List) == 0 {
+				continue
+			}
+			lastSt := body.List[len(body.List)-1]
+			hasContinue := false
+			ast.Inspect(lastSt, func(nd ast.Node) bool {
+				if b, ok := nd.(*ast.BranchStmt); ok && b.Tok == token.CONTINUE {
+					hasContinue = true
+				}
+				return true
+			})
+			if hasContinue {
+				fail("site %q: the last statement of the loop body contains a continue", site)
+			}
+			h := heads[n-1]
+			target := h
+			for _, p := range h.Preds {
+				if p.Comment == "for.post" && len(p.Succs) == 1 {
+					target = p
+				}
+			}
+			for _, p := range target.Preds {
+				if p.Index <= target.Index && target == h {
+					continue // entry edge
+				}
+				var lastPos token.Pos
+				for k := len(p.Instrs) - 1; k >= 0; k-- {
+					if q := p.Instrs[k].Pos(); q.IsValid() {
+						lastPos = q
+						break
+					}
+				}
+				if lastPos.IsValid() && lastPos >= lastSt.Pos() && lastPos < lastSt.End() {
+					if t.edgeSites == nil {
+						t.edgeSites = map[[2]*ssa.BasicBlock][]string{}
+					}
+					key := [2]*ssa.BasicBlock{p, target}
+					t.edgeSites[key] = append(t.edgeSites[key], site)
+				}
+			}
+		}
 		for _, c := range cands {
 			var first ssa.Instruction
 			after := strings.HasPrefix(c.site, "after ")
